@@ -25,6 +25,10 @@ class Sym(object):
         return "Sym(%s,%s)" % (self.kind, self.data if self.data is not None else unparse(self.node))
 
 
+class _NoSelf(object):
+    """Stands for `self` when a helper is evaluated on constants: any use of it is opaque."""
+
+
 class _Return(Exception):
     def __init__(self, value):
         self.value = value
@@ -218,7 +222,42 @@ class PathEnumerator(object):
         filt = self._filter_form(e)
         if filt is not None:
             return filt
+        # a read-only method of a concrete constant:  TABLE.get(status)
+        if isinstance(f, ast.Attribute) and f.attr in ("get", "keys", "values", "items", "index",
+                                                        "count") and not e.keywords:
+            recv = self._eval(f.value)
+            args = [self._eval(a) for a in e.args]
+            if isinstance(recv, (dict, list, tuple, str)) and not any(
+                    isinstance(a, Sym) for a in args):
+                try:
+                    return getattr(recv, f.attr)(*args)
+                except Exception:  # noqa: B902 - not a constant then
+                    pass
+        # a helper of the repository applied to concrete values (constant evaluation)
+        target = self._helper(e)
+        if target is not None:
+            args = [self._eval(a) for a in e.args]
+            kwargs = {k.arg: self._eval(k.value) for k in e.keywords if k.arg}
+            if not any(isinstance(a, Sym) for a in args + list(kwargs.values())):
+                from sa.pureeval import PureEval
+                params = [x.arg for x in target.node.args.args]
+                if params and params[0] in ("self", "cls") and not target.is_staticmethod:
+                    args = [_NoSelf()] + args
+                try:
+                    return PureEval(self.prog, target.module).call(target.node, args, kwargs)
+                except NotFoldable:
+                    pass
         return Sym("expr", node=self._subst(e))
+
+    def _helper(self, e):
+        """FuncInfo of a private method of the analysed class / function of its module."""
+        f = e.func
+        if isinstance(f, ast.Attribute) and isinstance(f.value, ast.Name) and f.value.id in (
+                "self", "cls") and getattr(self.f, "cls", None) is not None:
+            return self.prog.lookup_method(self.f.cls, f.attr)
+        if isinstance(f, ast.Name) and f.id in self.module.functions:
+            return self.module.functions[f.id]
+        return None
 
     def _filter_form(self, e):
         inner = e
@@ -263,6 +302,14 @@ class PathEnumerator(object):
                 if self._truth(v):
                     return True
             return False
+        if isinstance(e, ast.Compare) and len(e.ops) > 1:
+            # a == b == c  is  a == b and b == c
+            left = e.left
+            for op, right in zip(e.ops, e.comparators):
+                if not self._truth(ast.Compare(left=left, ops=[op], comparators=[right])):
+                    return False
+                left = right
+            return True
         if isinstance(e, ast.Compare) and len(e.ops) == 1:
             left, right = self._eval(e.left), self._eval(e.comparators[0])
             if not isinstance(left, Sym) and not isinstance(right, Sym):
